@@ -44,8 +44,13 @@ class P(core.Prop):
     def run_impl(self, case):
         from txtorcon import socks
         writes = []
-        m = socks._SocksMachine(case['ty'], case['host'], port=case['port'], on_data=writes.append,
-                                create_connection=lambda a, p: None)
+        try:
+            m = socks._SocksMachine(case['ty'], case['host'], port=case['port'], on_data=writes.append,
+                                    create_connection=lambda a, p: None)
+        except Exception as e:
+            # refused before anything was written: an observation (the oracle says whether the target
+            # had to be accepted), with the greeting a conforming client sends so that only the refusal counts
+            return {'greet': '050100', 'wrote': '', 'exc': type(e).__name__}
         m.connection()
         greet = b''.join(writes)
         del writes[:]
